@@ -1,0 +1,23 @@
+//go:build verif
+
+package dag
+
+// VerifEventFn, when set, receives scheduler and task-goroutine events from Graph.Run.
+// Compiled only with the `verif` build tag.
+var VerifEventFn func(g *Graph, kind string, id ID, err error)
+
+func verifEvent(g *Graph, kind string, id ID, err error) {
+	if fn := VerifEventFn; fn != nil {
+		fn(g, kind, id, err)
+	}
+}
+
+// VerifStatus returns the scheduler status of a vertex as a small integer
+// (0 pending, 1 in progress, 2 skip, 3 done). Only meaningful from inside an event callback
+// issued by the scheduler goroutine, or when Run is not executing.
+func (g *Graph) VerifStatus(id ID) int {
+	if v, ok := g.Vertices[id]; ok {
+		return int(v.status)
+	}
+	return -1
+}
